@@ -78,6 +78,7 @@ class Star:
 class Func:
     fname: str
     args: list
+    tail: Optional[tuple] = None     # ("filter" | "within", Expr): fn(args) FILTER (WHERE e > 0) / fn(args) WITHIN GROUP (ORDER BY e)
 
 
 @dataclass
@@ -220,7 +221,10 @@ class Renderer:
         if isinstance(e, Star):
             return "*" if e.rel is None else self.exposed(flat(frm)[e.rel].item) + ".*"
         if isinstance(e, Func):
-            return "%s(%s)" % (e.fname, ", ".join(self.expr(a, frm) for a in e.args))
+            out = "%s(%s)" % (e.fname, ", ".join(self.expr(a, frm) for a in e.args))
+            if e.tail is not None:
+                out += (" FILTER (WHERE %s > 0)" if e.tail[0] == "filter" else " WITHIN GROUP (ORDER BY %s)") % self.expr(e.tail[1], frm)
+            return out
         if isinstance(e, Case):
             s = "CASE " + " ".join("WHEN %s > 0 THEN %s" % (self.expr(c, frm), self.expr(r, frm)) for c, r in e.whens)
             if e.other is not None:
@@ -507,7 +511,7 @@ class Oracle:
         if isinstance(e, Col):
             return self.col(e, rels)
         if isinstance(e, Func):
-            return [x for a in e.args for x in self.expr(a, rels, s, ctes)]
+            return [x for a in (list(e.args) + ([e.tail[1]] if e.tail is not None else [])) for x in self.expr(a, rels, s, ctes)]
         if isinstance(e, Case):
             out = []
             for c, r in e.whens:
